@@ -193,6 +193,7 @@ type Unit struct {
 	spec     *FuncSpec
 	sweep    bool // emit zero-annotation safety obligations
 	inlineStack []*types.Func
+	boxVar   func(st *State, v *types.Var) // moves a local into a cell (set by VerifyFunc)
 	loopOrd  map[*ast.FuncDecl]int
 	specErrors []string
 	ghostTypes map[string]types.Type
@@ -263,7 +264,27 @@ func (u *Unit) heapSet(st *State, name string, t *Term) {
 			rec.whole[name] = true
 		}
 	}
+	if t.Op == "sym" {
+		prev, ok := st.heaps[name]
+		if !ok {
+			prev = u.initHeap[name]
+		}
+		u.immutKeep(st, name, prev, t)
+	}
 	st.heaps[name] = t
+}
+
+// immutKeep: immutable sub-fields of struct VALUES stored in heap `name`
+// (embedded structs) are the same in heap nw as in heap prev.
+func (u *Unit) immutKeep(st *State, name string, prev, nw *Term) {
+	accs := u.eng.tm.valueImmut[name]
+	if len(accs) == 0 || prev == nil || nw == nil || prev == nw || prev.Sort != nw.Sort {
+		return
+	}
+	r := Sym("r!im", SInt)
+	for _, a := range accs {
+		st.assumeT(Forall([]*Term{r}, Eq(App(a.acc, a.sort, Select(nw, r)), App(a.acc, a.sort, Select(prev, r))), []*Term{Select(nw, r)}))
+	}
 }
 
 func (u *Unit) varSet(st *State, obj types.Object, t *Term) {
@@ -439,6 +460,26 @@ func (u *Unit) mergeStates(baseLen int, states []*State) *State {
 	for _, s := range live[1:] {
 		if len(s.defers) != len(live[0].defers) {
 			return nil
+		}
+	}
+	// a local whose address was taken on some paths only lives in a cell
+	// there (BOX) and as a plain value elsewhere: move it into a cell on the
+	// other paths too, so that the merged state has one representation
+	if u.boxVar != nil {
+		boxed := map[*types.Var]bool{}
+		for _, s := range live {
+			for k, v := range s.vars {
+				if lv, ok := k.(*types.Var); ok && v.Sort == "BOX" {
+					boxed[lv] = true
+				}
+			}
+		}
+		for lv := range boxed {
+			for _, s := range live {
+				if v, ok := s.vars[lv]; ok && v.Sort != "BOX" {
+					u.boxVar(s, lv)
+				}
+			}
 		}
 	}
 	out := live[0].fork()
